@@ -277,6 +277,12 @@ class Model(c13.Model):
             raise Violation('C14/restart-position-wrong', f'after restart tell() = {told!r}; allowed: resolve(last completed save '
                 f'{c!r}) or resolve(interrupted save {i!r}) = {sorted(ok)} [{self.describe()}]')
 
+        for y in range(min(self.pos_index(told), len(self.sizes))):
+            if y not in self.ever and self.files[self.rec_file[y]].gone is None:
+                raise Violation('C14/restart-position-skips-record', f'incarnation {self.inc} starts at {told!r}, past record '
+                    f'{chr(65 + y)} which is on disk and was never delivered (last completed save {c!r}, interrupted save {i!r}) '
+                    f'[{self.describe()}]')
+
     def on_deliver(self, idxs, how):
         for x in idxs:
             if x in self.now:
@@ -289,9 +295,9 @@ class Model(c13.Model):
 
             for y in range(x):
                 if y not in self.ever and self.files[self.rec_file[y]].gone is None:
-                    raise Violation('C14/restart-skips-record' if not self.now else 'C14/reader-skips-record-while-following',
-                        f'incarnation {self.inc}: {how} returned record {chr(65 + x)} but the earlier record {chr(65 + y)}, whose '
-                        f'file is still on disk, was never delivered by any incarnation (last completed save {self.c!r}) '
+                    raise Violation('C14/reader-skips-record-while-following',
+                        f'incarnation {self.inc} (which started at a correct position): {how} returned record {chr(65 + x)} but the '
+                        f'earlier record {chr(65 + y)}, whose file is still on disk, was never delivered by any incarnation '
                         f'[{self.describe()}]')
 
             self.ever.add(x)
@@ -444,8 +450,14 @@ class Exec:
 
         return (r.read_idx, None if not rf else rf.tell(), tuple((os.path.basename(l.path), l.size) for l in r.logfiles))
 
-    def crash_points(self):
-        """Run write_head() and close() with a crash at every file-system operation; restart, check, drain, restore."""
+    def leaf_key(self):
+        """What a restart can see, and what a save would write."""
+
+        return H.h64((tuple(sorted(self.snap.items())), tuple(sorted(self.state_files().items())), tuple(self.r.tell())))
+
+    def crash_points(self, full=True):
+        """Run write_head() and close() with a crash at every file-system operation; restart, check, drain, restore.
+        `full`: every proper prefix of every write (else the shortest, the middle and the longest one)."""
 
         backup = self.state_files()
         rkey   = self.reader_key()
@@ -514,8 +526,9 @@ class Exec:
             kind, _, n = trace[j]
 
             if kind == 'write' and n:
-                for p in range(1, n):
-                    point('write_head', ('torn', j, p))
+                for p in range(1, n) if full else sorted({1, n // 2, n - 1}):
+                    if 0 < p < n:
+                        point('write_head', ('torn', j, p))
 
             j += 1
 
@@ -643,7 +656,7 @@ class Exec:
                 self.reader_key(), self.m.key())
 
 
-def execute(cfg, ops, leaf=False):
+def execute(cfg, ops, leaf=False, full=True):
     """Run one history; with `leaf` also the crash-point enumeration at the state it reaches.
     -> (violation | None, index of the failing op (len(ops) = in the crash-point enumeration), Exec (closed))."""
 
@@ -658,12 +671,13 @@ def execute(cfg, ops, leaf=False):
             i = len(ops)
 
             if leaf:
-                ex.crash_points()
+                ex.crash_points(full)
 
         except Violation as v:
             return v, i, ex
 
         ex.final_key     = H.h64(ex.key())
+        ex.final_leafkey = ex.leaf_key()
         ex.final_enabled = ex.enabled()
 
         return None, len(ops), ex
@@ -705,11 +719,11 @@ def _expand(item):
 
     t0 = time.process_time()
 
-    ci, hist, ops = item
-    cfg, depth    = _PLANS[ci]
-    res           = []
+    ci, hist, ops, full = item
+    cfg, depth          = _PLANS[ci]
+    res                 = []
 
-    v, at, ex = execute(cfg, hist, leaf=True)
+    v, at, ex = execute(cfg, hist, leaf=True, full=full)
     leaf      = (None if v is None else (v.sig, v.what), ex.stats, ex.ops)
 
     if v is not None and at != len(hist):
@@ -723,13 +737,13 @@ def _expand(item):
                 if at != len(hist):
                     raise RuntimeError(f'harness: nondeterministic replay, {cfg} {hist} failed at {at}: {v.sig} {v.what}')
 
-                res.append((op, None, None, False, (v.sig, v.what)))
+                res.append((op, None, None, False, (v.sig, v.what), None))
 
             else:
                 m = ex.m
 
                 res.append((op, ex.final_key, tuple(ex.final_enabled) if len(hist) + 1 < depth else (),
-                            m.inc >= 2 and len(m.files) >= 2 and len(m.ever) >= 1, None))
+                            m.inc >= 2 and len(m.files) >= 2 and len(m.ever) >= 1, None, ex.final_leafkey))
 
     return ci, hist, leaf, res, time.process_time() - t0
 
@@ -744,7 +758,8 @@ def run(rep):
     if rep.only:
         _PLANS = [(c, d) for c, d in _PLANS if rep.only in cfg_name(c)]
 
-    maxd = max(d for _, d in _PLANS)
+    maxd  = max(d for _, d in _PLANS)
+    quick = rep.tier == 'quick'
 
     rep.set('rule', 'a case = one history (operation sequence of writer and head-owning reader, incl. crash operations) of one '
         'configuration, or one crash point (file-system operation index / torn-write prefix of write_head() or close()) at the '
@@ -757,10 +772,14 @@ def run(rep):
     rep.assumption('the buffered file object is modelled at system-call level: open(2) at once, one write(2) at flush/close, close(2)')
     rep.assumption('the writer uses increasing timestamps (C13 covers the others); operations are atomic; time is virtual')
     rep.assumption('histories continue after a crash inside a save from three representative points (temp file empty / torn in '
-        'the middle / complete but not renamed) plus the crash between operations; ALL points are restarted, checked and '
-        'drained at every state; close() is enumerated with 3 torn prefixes per write, write_head() with every prefix')
+        'the middle / complete but not renamed) plus the crash between operations; at every state ALL file-system operation '
+        'boundaries of write_head() and close() are crash points that are restarted, checked and drained; torn writes: every '
+        'proper prefix in write_head() ' + ('at the first state of every distinct restart view (log directory, head and temp '
+        'file contents, position to be saved), shortest/middle/longest prefix at the other states' if quick else 'at every state') +
+        '; shortest/middle/longest prefix in close()')
 
     seen     = [set() for _ in _PLANS]
+    leafseen = [set() for _ in _PLANS]
     nontriv  = [set() for _ in _PLANS]
     frontier = []
     viols    = []
@@ -776,7 +795,8 @@ def run(rep):
             raise RuntimeError(f'harness: initial state violates: {v.sig} {v.what}')
 
         seen[ci].add(ex.final_key)
-        frontier.append((ci, (), tuple(ex.final_enabled)))
+        leafseen[ci].add(ex.final_leafkey)
+        frontier.append((ci, (), tuple(ex.final_enabled), True))
 
     for depth in range(0, maxd + 1):
         items = frontier
@@ -799,7 +819,7 @@ def run(rep):
             if lv is not None:
                 viols.append((depth, ci, hist, lv, True))
 
-            for op, key, enabled, nt, viol in res:
+            for op, key, enabled, nt, viol, leafkey in res:
                 nexec += 1
 
                 if viol is not None:
@@ -817,7 +837,9 @@ def run(rep):
                 if nt:
                     nontriv[ci].add(key)
 
-                nxt.append((ci, hist + (op,), enabled))
+                nxt.append((ci, hist + (op,), enabled, not quick or leafkey not in leafseen[ci]))
+
+                leafseen[ci].add(leafkey)
 
         execs += nexec
 
@@ -829,6 +851,7 @@ def run(rep):
     rep.set('histories_executed', execs)
     rep.set('crash_points_enumerated', stats.get('crash_points', 0))
     rep.set('states', sum(len(s) for s in seen))
+    rep.set('distinct_restart_views', sum(len(s) for s in leafseen))
     rep.set('distinct_nontrivial', sum(len(s) for s in nontriv))
     rep.set('configurations', len(_PLANS))
     rep.set('max_depth', maxd)
